@@ -149,6 +149,10 @@ class Gen:
             b = ("obj", [("toxicity", r.choice([A.J(0), A.J(1), ("frac", 768)]))])
         elif k == "both":
             b = ("obj", [("attributes", A.J({anyf: 42})), ("toxicity", ("frac", 128))])
+            if r.chance(1, 2):
+                # the whole object posted back: name, type and stream in an update change nothing
+                b = ("obj", b[1] + [(x, A.J(v)) for x, v in (("name", r.choice(["renamed", "t1"])), ("type", r.choice(["timeout", "noop", "latency"])),
+                                                                 ("stream", r.choice(["upstream", "downstream"]))) if r.chance(2, 3)])
         elif k == "illtyped":
             badv = r.choice([A.J("bad"), ("frac", 1536), A.J([2]), A.J(True), ("int", 1 << 63)])
             good = (anyf, A.J(r.choice([500, 77, 12345])))
